@@ -18,7 +18,7 @@ import cxx2c
 BUILD = os.path.join(ROOT, 'build')
 NPROC = int(os.environ.get('VERIF_JOBS', '16'))
 CBMC_CHECKS = ['--bounds-check', '--pointer-check', '--signed-overflow-check', '--undefined-shift-check',
-               '--div-by-zero-check', '--unwinding-assertions', '--no-malloc-may-fail']
+               '--div-by-zero-check', '--unwinding-assertions', '--no-malloc-may-fail', '--sat-solver', 'cadical']
 
 
 class Infra(Exception):
@@ -170,6 +170,9 @@ def run_harness(unit, variant, h, tier='quick', keep=False):
     env = dict(meta['defines'])
     d = os.path.dirname(cfile)
     defs = ['-D%s=%s' % (k, v) for k, v in meta['defines'].items()] + ['-D__CPROVER', '-DVERIF_HARNESS_%s' % h['name']]
+    for x in (h.get('defs') or '').split(','):
+        if x:
+            defs.append('-D' + x)
     # functions named by the harness must exist
     for f in ([h['enforce']] if h['enforce'] else []) + h['replace']:
         if f not in meta['protos']:
